@@ -180,7 +180,12 @@ def run(ctx: Ctx) -> None:
         (tree / "readonly.txt").write_text("keep me\n")
         (tree / "conf").mkdir()
         (tree / "conf" / "refurb.toml").write_text("[tool.refurb]\nenable_all = true\n")
-        scen = [("config-elsewhere", ["diag.py", "--config-file", "conf/refurb.toml"]), ("clean", ["clean.py"]), ("diagnostics", ["diag.py", "pkg"]), ("missing-file", ["nope.py"]), ("syntax-error", ["syntax.py", "diag.py"]),
+        (tree / "conf" / "none.toml").write_text("[tool.refurb]\ndisable_all = true\n")
+        # what is selected does not decide whether the side output is written: no check at all, one check, everything ignored
+        selections = [("no-check-selected", ["diag.py", "pkg", "--disable-all"]), ("no-check-selected-by-config", ["diag.py", "--config-file", "conf/none.toml"]),
+                      ("one-check-selected", ["diag.py", "--disable-all", "--enable", "FURB123"]), ("every-finding-ignored", ["diag.py", "--ignore", "FURB123", "--ignore", "FURB114"]),
+                      ("category-disabled", ["diag.py", "pkg", "--disable", "#readability"]), ("quiet-no-check", ["clean.py", "--quiet", "--disable-all"])]
+        scen = selections + [("config-elsewhere", ["diag.py", "--config-file", "conf/refurb.toml"]), ("clean", ["clean.py"]), ("diagnostics", ["diag.py", "pkg"]), ("missing-file", ["nope.py"]), ("syntax-error", ["syntax.py", "diag.py"]),
                 ("empty-dir", ["emptydir"]), ("invalid-plugin", ["diag.py", "--load", "badplugin"]), ("unimportable-plugin", ["diag.py", "--load", "no_such_plugin_mod"]),
                 ("deep", ["deep.py"]), ("recursion-limit", ["longsum.py", "diag.py"]), ("recursion-limit-last", ["clean.py", "longsum.py"]), ("same-file-twice", ["diag.py", "diag.py", "pkg/m.py"]), ("github-format", ["diag.py", "--format", "github"]), ("explain", ["--explain", "FURB123"]), ("verbose", ["clean.py", "--verbose", "--enable-all"])]
         for name, args in scen:
@@ -212,7 +217,7 @@ def run(ctx: Ctx) -> None:
                     if not ok:
                         ctx.report(f"stats-malformed:{name}", f"--timing-stats file of scenario {name}: {why}", {"argv": argv, "content": stats.read_text()[:500]})
                     stats.unlink()
-                elif timing and name in ("clean", "diagnostics", "deep", "github-format", "verbose", "config-elsewhere", "recursion-limit", "recursion-limit-last"):
+                elif timing and name in ("clean", "diagnostics", "deep", "github-format", "verbose", "config-elsewhere", "recursion-limit", "recursion-limit-last", *[n_ for n_, _ in selections]):
                     ctx.report(f"stats-missing:{name}", f"--timing-stats file was not written in scenario {name}", {"argv": argv, "stdout": out[-300:]})
     finally:
         shutil.rmtree(td, ignore_errors=True)
